@@ -134,6 +134,14 @@ def variants():
     v.append(("followed_by_any", dict(group=5, times=2, loop=True, optional=False, npred=2)))
     v.append(("followed_by_any", dict(group=5, times=1, loop=False, optional=True, npred=2)))
     v.append(("not_followed_by_any", dict(group=6, times=1, npred=2)))
+    # repetition counts below one (the builders add max(times, 1) blocks)
+    v.append(("next", dict(group=1, times=-1, loop=False)))
+    v.append(("not_next", dict(group=2, times=-2)))
+    v.append(("followed_by", dict(group=3, times=-1, loop=False, optional=False)))
+    v.append(("followed_by", dict(group=3, times=0, loop=True, optional=False)))
+    v.append(("not_followed_by", dict(group=4, times=-1)))
+    v.append(("followed_by_any", dict(group=5, times=-3, loop=False, optional=False, npred=2)))
+    v.append(("not_followed_by_any", dict(group=6, times=0, npred=2)))
     v.append(("precondition", dict()))
     v.append(("haltcondition", dict()))
     return v
